@@ -3,6 +3,7 @@ _SHIM = {"verifc10gen/gen.go": "harness/c10gen/gen.go",
          "verifc10hf/case.go": "harness/c10hf/case.go", "verifc10hf/build.go": "harness/c10hf/build.go", "verifc10hf/mut.go": "harness/c10hf/mut.go"}
 
 CHECK = {
+    "death_is_violation": True,  # "the server keeps serving": an exit of the process (os.Exit / log.Fatal) counts like a panic
     "builds": [
         {"mode": "inpkg", "pkg": "fs/ggml", "files": ["c10_decode_test.go"], "shims": _SHIM},
         {"mode": "inpkg", "pkg": "server", "files": ["c10_api_test.go", "c10_convert_test.go"], "shims": _SHIM},
